@@ -504,17 +504,21 @@ func (r *relay) outputBuffer(streamID uint32) *outputBuffer {
 // sendWindowUpdates sends WINDOW_UPDATE frames effectively acknowledging consumption of the
 // given data frame.
 func (r *relay) sendWindowUpdates(f *http2.DataFrame) error {
-	if len(f.Data()) <= 0 {
+	// The whole frame payload counts against the sender's flow-control windows, including the pad
+	// length octet and the padding, not just the data.
+	// See: https://tools.ietf.org/html/rfc7540#section-6.1
+	length := f.Header().Length
+	if length == 0 {
 		return nil
 	}
 	r.destMu.Lock()
 	defer r.destMu.Unlock()
 	// First updates the connection level window.
-	if err := r.dest.WriteWindowUpdate(0, uint32(len(f.Data()))); err != nil {
+	if err := r.dest.WriteWindowUpdate(0, length); err != nil {
 		return err
 	}
 	// Next updates the stream specific window.
-	return r.dest.WriteWindowUpdate(f.StreamID, uint32(len(f.Data())))
+	return r.dest.WriteWindowUpdate(f.StreamID, length)
 }
 
 func (r *relay) decodeFull(data []byte) ([]hpack.HeaderField, error) {
